@@ -412,7 +412,7 @@ fn profiles_for(prop: &str) -> &'static [Profile] {
 fn shape_cfg(prop: &str, c: &mut LevelCfg, rng: &mut Rng) {
     match prop {
         "c12" => {
-            c.tl = (1, 6);
+            c.tl = if rng.chance(1, 4) { (0, 0) } else { (1, 6) };
             if c.depth_left > 0 && c.p_batch < 20 {
                 c.p_batch = 25;
             }
@@ -640,6 +640,12 @@ pub fn case(prop: &str, up: &'static str, rng: &mut Rng, pools: &mut Pools, rep:
         }
     }
 
+    // ---- conversion to the sendable form (C12): Ok exactly when there is no thread-local
+    // system, and the plan survives the conversion (either way) ----
+    if up == "C12" {
+        check_sendable(&mut inst, &mut findings, rep);
+    }
+
     // ---- verdicts of this property ----
     let mut reported = std::collections::BTreeSet::new();
     for f in &findings {
@@ -696,6 +702,81 @@ pub fn case(prop: &str, up: &'static str, rng: &mut Rng, pools: &mut Pools, rep:
         }
         rep.sample(sj);
     }
+}
+
+/// `try_into_sendable` is Ok exactly when the dispatcher has no thread-local systems; the
+/// converted dispatcher (or the dispatcher handed back in `Err`) has the same layout and still
+/// runs every system exactly once.
+fn check_sendable(inst: &mut Inst, findings: &mut Vec<Finding>, rep: &mut Report) {
+    let Some(d) = inst.disp.take() else { return };
+    let has_tl = !inst.plan.tls().is_empty();
+    let n_uids = inst.plan.n_uids();
+    let before = inst.ctx.run_counts();
+    match d.try_into_sendable() {
+        Ok(mut sd) => {
+            rep.metric("sendable_ok", 1);
+            if has_tl {
+                findings.push(Finding::new(&["C12"], "sendable_with_thread_local", format!("try_into_sendable returned Ok although {} thread-local system(s) are registered", inst.plan.tls().len())));
+            }
+            if sd.verif_shape() != inst.layout.shape() {
+                findings.push(Finding::new(&["C12"], "sendable_changed_plan", format!("the sendable dispatcher has shape {:?}, the dispatcher had {:?}", sd.verif_shape(), inst.layout.shape())));
+                return;
+            }
+            // identification run on the converted dispatcher: same systems at the same places
+            inst.ctx.set_mode(Mode::Identify);
+            let _ = inst.ctx.take_ident();
+            sd.dispatch_seq(&inst.world);
+            inst.ctx.set_mode(Mode::Build);
+            match crate::layout::parse_ident(&sd.verif_shape(), 0, inst.ctx.take_ident()) {
+                Ok(l) => {
+                    if l.stages != inst.layout.stages {
+                        findings.push(Finding::new(&["C12"], "sendable_changed_plan", format!("after conversion the plan is {}, before it was {}", l.brief(), inst.layout.brief())));
+                    }
+                }
+                Err(e) => findings.push(Finding::new(&["C12"], "sendable_changed_plan", format!("after conversion: {}", e))),
+            }
+            inst.ctx.set_mode(Mode::Quiet);
+            let r = std::panic::catch_unwind(std::panic::AssertUnwindSafe(|| sd.dispatch(&inst.world)));
+            inst.ctx.set_mode(Mode::Build);
+            if r.is_ok() {
+                let e1 = expected_counts(&inst.plan, DMode::Par, n_uids);
+                let now = inst.ctx.run_counts();
+                for u in 1..n_uids {
+                    if now[u] - before[u] != e1[u] {
+                        findings.push(Finding::new(&["C12", "C04"], "sendable_run_count", format!("after conversion u{} ran {} times in one dispatch, expected {}", u, now[u] - before[u], e1[u])));
+                        break;
+                    }
+                }
+            }
+        }
+        Err(mut d) => {
+            rep.metric("sendable_refused", 1);
+            if !has_tl {
+                findings.push(Finding::new(&["C12"], "sendable_refused", "try_into_sendable refused a dispatcher without thread-local systems".into()));
+            }
+            // the value handed back is the same dispatcher
+            let (shape, ntl) = d.verif_shape();
+            if shape != inst.layout.shape() || ntl != inst.layout.tls.len() {
+                findings.push(Finding::new(&["C12"], "sendable_err_changed_plan", format!("the dispatcher handed back by try_into_sendable has shape {:?}/{} instead of {:?}/{}", shape, ntl, inst.layout.shape(), inst.layout.tls.len())));
+            }
+            inst.ctx.set_mode(Mode::Quiet);
+            let w = &inst.world;
+            let r = std::panic::catch_unwind(std::panic::AssertUnwindSafe(|| d.dispatch(w)));
+            inst.ctx.set_mode(Mode::Build);
+            if r.is_ok() {
+                let e1 = expected_counts(&inst.plan, DMode::Dispatch, n_uids);
+                let now = inst.ctx.run_counts();
+                for u in 1..n_uids {
+                    if now[u] - before[u] != e1[u] {
+                        findings.push(Finding::new(&["C12", "C04"], "sendable_err_run_count", format!("the dispatcher handed back by try_into_sendable ran u{} {} times in one dispatch, expected {}", u, now[u] - before[u], e1[u])));
+                        break;
+                    }
+                }
+            }
+            inst.disp = Some(d);
+        }
+    }
+    let _ = inst.ctx.take_violations();
 }
 
 pub fn run(args: &Args, prop: &str, up: &'static str, quick: u64, thorough: u64, execute_every: u64) -> i32 {
